@@ -17,6 +17,13 @@ type MtScript struct {
 	Cfg      ScriptCfg `json:"cfg"`
 	Tunnels  []Script  `json:"tunnels"`
 	Schedule []int     `json:"schedule"` // tunnel index per step, in execution order
+	// Contend: after the schedule, every tunnel with an open channel moves a stream in both directions AT THE SAME
+	// TIME; the clients of the first Slow tunnels read in bursts with pauses so that the gateway's writes to them
+	// block while the other tunnels are busy. KiB = host->client stream per slow tunnel (busy tunnels: a quarter).
+	Contend *struct {
+		Slow int `json:"slow"`
+		KiB  int `json:"kib"`
+	} `json:"contend,omitempty"`
 }
 
 type mtTunnel struct {
@@ -163,6 +170,9 @@ func (i *Inst) RunMulti(s *MtScript, tw *TraceWriter, rng *rand.Rand) error {
 			m.ps.Lines = append(m.ps.Lines, M{"ev": "iso", "dir": "c2b", "own": own, "foreign": foreign, "n": len(got)})
 		}
 	}
+	if s.Contend != nil && firstErr == nil {
+		firstErr = i.contend(ts, s.Contend.Slow, s.Contend.KiB, rng)
+	}
 	for _, m := range ts {
 		m.ps.Finish()
 		for _, l := range m.ps.Lines {
@@ -171,4 +181,133 @@ func (i *Inst) RunMulti(s *MtScript, tw *TraceWriter, rng *rand.Rand) error {
 		m.ps = nil
 	}
 	return firstErr
+}
+
+// stream is a per-tunnel pseudo random byte stream: no two tunnels share content.
+func stream(seed int64, n int) []byte {
+	b := make([]byte, n)
+	rand.New(rand.NewSource(seed)).Read(b)
+	return b
+}
+
+// contend moves data on all open tunnels concurrently and records, per tunnel and direction, whether exactly the
+// tunnel's own stream arrived (own) and whether bytes arrived that are not at that position of its own stream (foreign).
+func (i *Inst) contend(ts []*mtTunnel, slow, kib int, rng *rand.Rand) error {
+	type res struct {
+		ownDown, foreignDown, ownUp, foreignUp bool
+		nDown, nUp                             int
+	}
+	var open []*mtTunnel
+	for _, m := range ts {
+		if m.bc != nil && m.ps.T != nil && !m.ps.T.Exited {
+			m.drain(2 * time.Millisecond)
+			open = append(open, m)
+		}
+	}
+	if len(open) == 0 {
+		return nil
+	}
+	var stalled error
+	results := make([]res, len(open))
+	done := make(chan int, len(open))
+	for k, m := range open {
+		isSlow := k < slow
+		nDown := kib * 1024
+		if !isSlow {
+			nDown = kib * 256
+		}
+		nUp := 64 * 1024
+		down := stream(rng.Int63(), nDown)
+		up := stream(rng.Int63(), nUp)
+		hostBase := m.bc.Len()
+		go func(k int, m *mtTunnel) {
+			r := res{}
+			// host -> client
+			go func() {
+				for off := 0; off < len(down); {
+					n := 1 + m.rng.Intn(16000)
+					if off+n > len(down) {
+						n = len(down) - off
+					}
+					if m.bc.Send(down[off:off+n]) != nil {
+						return
+					}
+					off += n
+				}
+			}()
+			// client -> host, as DATA packets of varying size
+			go func() {
+				for off := 0; off < len(up); {
+					n := 1 + m.rng.Intn(3000)
+					if off+n > len(up) {
+						n = len(up) - off
+					}
+					if m.ps.T.SendRaw(tsgu.Data(uint16(n), up[off:off+n])) != nil {
+						return
+					}
+					off += n
+				}
+			}()
+			// the client reads: a slow one waits first and then reads in bursts with pauses
+			if isSlow {
+				time.Sleep(400 * time.Millisecond)
+			}
+			got := 0
+			bad := false
+			burst := 0
+			deadline := time.Now().Add(40 * time.Second)
+			for got < len(down) && time.Now().Before(deadline) {
+				b, err := m.ps.T.Recv(3 * time.Second)
+				if err != nil {
+					break
+				}
+				dd := tsgu.Decode(b)
+				if dd.Type != tsgu.PktData {
+					continue
+				}
+				pl := dd.Payload
+				if got+len(pl) > len(down) || !bytes.Equal(pl, down[got:got+len(pl)]) || !dd.WellForm {
+					bad = true
+				}
+				got += len(pl)
+				if isSlow {
+					burst += len(pl)
+					if burst > 96*1024 {
+						burst = 0
+						time.Sleep(4 * time.Millisecond)
+					}
+				}
+			}
+			r.nDown = got
+			r.ownDown = got == len(down) && !bad
+			r.foreignDown = bad
+			// what the host received
+			m.bc.WaitRecv(hostBase+len(up), 10*time.Second)
+			hb := m.bc.Bytes()[hostBase:]
+			r.nUp = len(hb)
+			r.ownUp = bytes.Equal(hb, up)
+			r.foreignUp = len(hb) > len(up) || !bytes.Equal(hb, up[:len(hb)])
+			results[k] = r
+			done <- k
+		}(k, m)
+	}
+	for range open {
+		<-done
+	}
+	for k, m := range open {
+		r := results[k]
+		cls := "busy"
+		if k < slow {
+			cls = "slow"
+		}
+		m.ps.Lines = append(m.ps.Lines, M{"ev": "iso", "dir": "b2c-contended-" + cls, "own": r.ownDown, "foreign": r.foreignDown, "n": r.nDown})
+		m.ps.Lines = append(m.ps.Lines, M{"ev": "iso", "dir": "c2b-contended-" + cls, "own": r.ownUp, "foreign": r.foreignUp, "n": r.nUp})
+		m.hostPos = m.bc.Len()
+		// an incomplete stream without a single wrong byte within the generous time limit is a stall of the run
+		// (overloaded machine), not an observation about isolation
+		if !r.foreignDown && !r.ownDown && stalled == nil {
+			stalled = fmt.Errorf("contention phase: client of tunnel %d got %d bytes of its stream within the time limit, none of them wrong", k, r.nDown)
+		}
+	}
+	return stalled
 }
